@@ -285,6 +285,39 @@ def select_shape(nw, kind, n):
     return Shape(name, build, obligations)
 
 
+def select_cumulative_shape(ntasks):
+    """every task picks one of [W1, CW] (CW cumulative, size 2): any choice is admitted as long as the tasks on
+    W1 do not overlap and no three tasks on CW share an instant (positive lengths)"""
+    name = f"select_with_cumulative_in_list/{ntasks}tasks"
+
+    def build(P):
+        pb, hv = new_problem(P, True)
+        tis = [make_task(P, "ABCD"[i], "fixed") for i in range(ntasks)]
+        w1, cw = ps.Worker(name="W1"), ps.CumulativeWorker(name="CW", size=2)
+        sws, named = [], {}
+        for i, t in enumerate(tis):
+            sw = ps.SelectWorkers(list_of_workers=[w1, cw], nb_workers_to_select=1)
+            t.obj.add_required_resource(sw)
+            sws.append(sw)
+            named[f"sel{i}_W1"], named[f"sel{i}_CW"] = sw._selection_dict[w1], sw._selection_dict[cw]
+        return Ctx(problem=pb, tis=tis, w1=w1, cw=cw, sws=sws, horizon=hv, named=named)
+
+    def obligations(ctx):
+        H, tis = ctx.problem._horizon, ctx.tis
+        on_w = [sw._selection_dict[ctx.w1] for sw in ctx.sws]
+        on_c = [sw._selection_dict[ctx.cw] for sw in ctx.sws]
+        cl = [base_valid(tis, H, ctx.horizon)] + [z3.Xor(a, b) for a, b in zip(on_w, on_c)]
+        for i, j in itertools.combinations(range(len(tis)), 2):
+            cl.append(Implies(And(on_w[i], on_w[j]), Or(tis[i].e <= tis[j].s, tis[j].e <= tis[i].s)))
+        for grp in itertools.combinations(range(len(tis)), 3):
+            shared = And([And([tis[x].s < tis[y].e for y in grp]) for x in grp])
+            cl.append(Not(And([on_c[g] for g in grp] + [shared])))
+        observables = [o for t in tis for o in t.observables()] + [H] + on_w + on_c
+        return [Ob(f"{PROP}/{name}/every_allowed_selection_admitted", "complete", valid=And(cl), observables=observables)]
+
+    return Shape(name, build, obligations)
+
+
 def cumulative_shape(size, ntasks):
     name = f"cumulative/size{size}/{ntasks}tasks"
 
@@ -545,6 +578,8 @@ def shapes(tier):
                 out.append(select_shape(nw, kind, n))
     for size, nt in ((2, 3), (3, 4)) + (((2, 4),) if thorough else ()):
         out.append(cumulative_shape(size, nt))
+    for nt in (2, 3) + ((4,) if thorough else ()):
+        out.append(select_cumulative_shape(nt))
     for rule in TIE_RULES:
         for kinds in [("fixed", "zero"), ("zero", "zero"), ("fixed", "zero", "var")] + ([("zero", "fixed", "zero"), ("var", "var")] if thorough else []):
             out.append(ties_shape(rule, kinds))
